@@ -7,6 +7,7 @@ expected values from the same dicts, independently of sbeppc.
 Shape space: see DESIGN.md 3.2.
 """
 import json
+import os
 from xml.sax.saxutils import escape, quoteattr
 
 from hypothesis import HealthCheck, Phase, given, seed as hseed, settings, strategies as st
@@ -44,6 +45,7 @@ NAME_POOL = [
     "numGroups", "numVarDataFields", "messageHeader", "groupSizeEncoding", "varDataEncoding",
     "c_", "view", "cursor", "sbepp_", "std_", "size_bytes", "get_header",
     "X", "x1", "long_name_with_several_parts",
+    "a_b", "b_a", "g_g", "x_y", "a_b_entry", "g_a",
 ]
 # Identifiers the generated code uses for its own template parameters, function
 # parameters and locals.  Kept out of the main pool (a schema using one does not
@@ -54,12 +56,38 @@ IMPL_NAMES = ["Byte", "Cursor", "Visitor", "Tag", "T", "v", "c", "Byte2", "Args"
 TEXT_ALPHABET = "abcXYZ 019_-.,:;()[]+*/=!?#$%@^~|<>&"
 
 
-def _names(draw, used, lower=False, k=None):
-    """draw a name not in `used` (a set; case-insensitive when lower=True)."""
+def _names(draw, used, lower=False, k=None, related=()):
+    """draw a name not in `used` (a set; case-insensitive when lower=True).  `related`: names of enclosing / sibling
+    entities; with some probability the new name is one of them or one of the forms the generator derives from them
+    (`x_0`, `x_1`, `x_entry`, `x_0_entry`, `x_y`), which is what mangling has to cope with."""
     cands = [n for n in NAME_POOL if (n.lower() if lower else n) not in used]
-    n = draw(st.sampled_from(cands))
+    rel = []
+    for r in related:
+        rel += [r, r + "_0", r + "_1", r + "_entry", r + "_0_entry"]
+    for r in related:
+        for q in related:
+            if r != q:
+                rel.append(r + "_" + q)
+    rel = [n for n in dict.fromkeys(rel) if (n.lower() if lower else n) not in used and len(n) < 40]
+    if rel and draw(st.integers(0, 3)) == 0:
+        n = draw(st.sampled_from(rel))
+    else:
+        n = draw(st.sampled_from(cands))
     used.add(n.lower() if lower else n)
     return n
+
+
+def _refcase(draw, name):
+    """a reference to a public type as written at a reference site: type lookup is case-insensitive, so any spelling
+    that differs only in letter case designates the same type (the generated code must use the declared name)"""
+    k = draw(st.integers(0, 11))
+    if k == 0:
+        return name.swapcase()
+    if k == 1:
+        return name.upper()
+    if k == 2:
+        return name.lower()
+    return name
 
 
 def _opt(draw, strat, p=0.3):
@@ -118,7 +146,11 @@ def _num_text(draw, prim, opts):
     return _int_text(draw, lo, hi, opts)
 
 
-def gen_type(draw, name, opts, allow_const=True, allow_array=True, force=None):
+def _enum_values(types_by_name):
+    return [(t, v) for t in (types_by_name or {}).values() if t["kind"] == "enum" for v in t["values"]]
+
+
+def gen_type(draw, name, opts, allow_const=True, allow_array=True, force=None, types_by_name=None):
     """a <type>; force: None | 'scalar' | 'array' | 'const'"""
     t = {"kind": "type", "name": name}
     shape = force or draw(st.sampled_from(["scalar"] * 5 + (["array"] * 2 if allow_array else []) + (["const"] * 2 if allow_const else [])))
@@ -143,7 +175,16 @@ def gen_type(draw, name, opts, allow_const=True, allow_array=True, force=None):
         t["presence"] = draw(st.sampled_from(["required", "required", "optional"]))
     else:
         t["presence"] = "constant"
-        if t["prim"] == "char" and draw(st.booleans()):
+        evs = _enum_values(types_by_name)
+        if evs and (force == "const" or draw(st.integers(0, 2)) == 0):
+            # constant given by valueRef to an enum value that fits the primitive type
+            et, ev = draw(st.sampled_from(evs))
+            num = ord(ev["value"]) if et["prim"] == "char" else int(ev["value"])
+            fits = [p for p in ["char"] + INT_PRIMS if (0 <= num <= 127 if p == "char" else prim_range(p)[0] <= num <= prim_range(p)[1])]
+            t["prim"] = draw(st.sampled_from(fits))
+            t["value_ref"] = "%s.%s" % (_refcase(draw, et["name"]), ev["name"])
+            t["length"] = draw(st.sampled_from([None, 1]))
+        elif t["prim"] == "char" and draw(st.booleans()):
             # string / char constant
             alphabet = "abcXYZ 019_-.,:;()[]+*/=!?#$%@^~|" + ("\"'\\" if opts["special_text"] else "")
             s = draw(st.text(alphabet=alphabet, min_size=1, max_size=9))
@@ -183,7 +224,7 @@ def gen_enum(draw, name, opts, types_by_name):
     vals = []
     seen_vals = set()
     for _ in range(n):
-        vn = _names(draw, used)
+        vn = _names(draw, used, related=[name])
         if prim == "char":
             cands = [ch for ch in "ABCxyz019" if ch not in seen_vals]
             v = draw(st.sampled_from(cands))
@@ -218,7 +259,7 @@ def gen_set(draw, name, opts, types_by_name):
     idxs = set()
     choices = []
     for _ in range(n):
-        cn = _names(draw, used)
+        cn = _names(draw, used, related=[name])
         cand = [i for i in sorted({0, 1, 2, 7, width - 1, width - 2, width // 2, 31 if width > 31 else 3, 32 if width > 32 else 4}) if i < width and i not in idxs]
         i = draw(st.sampled_from(cand))
         idxs.add(i)
@@ -277,7 +318,7 @@ def gen_composite(draw, name, opts, types_by_name, depth=0, required=None):
     n = draw(st.integers(0, 4 if depth == 0 else 2))
     off = 0
     for _ in range(n):
-        en = _names(draw, used)
+        en = _names(draw, used, related=[name] + [e_["name"] for e_ in c["elements"]][:2])
         kinds = ["type"] * 4 + ["enum", "set"]
         if depth < 2:
             kinds.append("composite")
@@ -286,7 +327,7 @@ def gen_composite(draw, name, opts, types_by_name, depth=0, required=None):
             kinds += ["ref"] * 2
         k = draw(st.sampled_from(kinds))
         if k == "type":
-            el = gen_type(draw, en, opts)
+            el = gen_type(draw, en, opts, types_by_name=types_by_name)
         elif k == "enum":
             el = gen_enum(draw, en, opts, types_by_name)
         elif k == "set":
@@ -346,7 +387,7 @@ def gen_level_header(draw, name, opts, types_by_name, required, extras_pool):
                       "min": None, "max": None, "null": None, "const": None, "value_ref": None, "char_enc": None, "offset": None,
                       "description": None, "since": None, "deprecated": None, "semantic_type": None}
         else:
-            el = gen_type(draw, en, opts, allow_const=True, allow_array=True)
+            el = gen_type(draw, en, opts, allow_const=True, allow_array=True, types_by_name=types_by_name)
         if not _is_const_elem(el, types_by_name) and draw(st.integers(0, 4)) == 0:
             el["offset"] = off + draw(st.sampled_from([0, 1, 2, 5]))
         if not _is_const_elem(el, types_by_name):
@@ -379,7 +420,7 @@ def field_is_const(f, types_by_name):
     return False
 
 
-def gen_fields(draw, opts, types_by_name, used, max_fields, const_only=False):
+def gen_fields(draw, opts, types_by_name, used, max_fields, const_only=False, related=()):
     fields = []
     off = 0
     n = draw(st.sampled_from([0, 1] + list(range(1, max_fields + 1)) * 2))
@@ -387,7 +428,7 @@ def gen_fields(draw, opts, types_by_name, used, max_fields, const_only=False):
         n = max(1, min(n, 2))
     enum_values = [(t, v) for t in types_by_name.values() if t["kind"] == "enum" for v in t["values"]]
     for _ in range(n):
-        fn = _names(draw, used)
+        fn = _names(draw, used, related=list(related))
         f = {"name": fn, "id": draw(st.sampled_from([0, 1, 2, 3, 100, 65535])), "offset": None, "presence": "required", "value_ref": None}
         choice = draw(st.sampled_from(["prim"] * 3 + (["public"] * 5 if types_by_name else []) + (["primconst"] if enum_values else [])))
         const_types = sorted(n2 for n2, t2 in types_by_name.items() if t2["kind"] == "type" and t2["presence"] == "constant")
@@ -412,7 +453,7 @@ def gen_fields(draw, opts, types_by_name, used, max_fields, const_only=False):
             fits = [p for p in ["char"] + INT_PRIMS if (0 <= num <= 127 if p == "char" else prim_range(p)[0] <= num <= prim_range(p)[1])]
             f["type"] = draw(st.sampled_from(fits))
             f["presence"] = "constant"
-            f["value_ref"] = "%s.%s" % (t["name"], v["name"])
+            f["value_ref"] = "%s.%s" % (_refcase(draw, t["name"]), v["name"])
         else:
             tn = draw(st.sampled_from(sorted(types_by_name)))
             t = types_by_name[tn]
@@ -421,7 +462,7 @@ def gen_fields(draw, opts, types_by_name, used, max_fields, const_only=False):
             if t["kind"] == "enum" and t["values"] and draw(st.integers(0, 3)) == 0:
                 v = draw(st.sampled_from(t["values"]))
                 f["presence"] = "constant"
-                f["value_ref"] = "%s.%s" % (t["name"], v["name"])
+                f["value_ref"] = "%s.%s" % (_refcase(draw, t["name"]), v["name"])
         if not field_is_const(f, types_by_name):
             if draw(st.integers(0, 3)) == 0:
                 f["offset"] = off + draw(st.sampled_from([0, 1, 2, 4, 9]))
@@ -432,12 +473,12 @@ def gen_fields(draw, opts, types_by_name, used, max_fields, const_only=False):
     return fields, off
 
 
-def gen_level(draw, opts, ctx, depth, is_message):
+def gen_level(draw, opts, ctx, depth, is_message, path=()):
     types_by_name = ctx["types"]
     used = set()
     lvl = {}
     const_only = (not is_message) and draw(st.integers(0, 9)) == 0
-    lvl["fields"], min_bl = gen_fields(draw, opts, types_by_name, used, 5 if is_message else 3, const_only=const_only)
+    lvl["fields"], min_bl = gen_fields(draw, opts, types_by_name, used, 5 if is_message else 3, const_only=const_only, related=path[-2:])
     lvl["min_block_length"] = min_bl
     lvl["block_length"] = None
     if draw(st.integers(0, 3)) == 0:
@@ -446,19 +487,28 @@ def gen_level(draw, opts, ctx, depth, is_message):
     lvl["data"] = []
     ngroups = draw(st.sampled_from([0, 1, 1, 2, 2, 3] if depth == 0 else [0, 0, 1, 2, 3] if depth == 1 else [0, 0, 1])) if depth < 3 and ctx["dims"] else 0
     for _ in range(ngroups):
-        g = {"name": _names(draw, used), "id": draw(st.sampled_from([1, 2, 10, 65535]))}
-        g.update(gen_level(draw, opts, ctx, depth + 1, False))
+        # names that collide after concatenation of group paths (`a` > `b` vs. a sibling `a_b`): the trait size_bytes
+        # parameter names are built that way
+        concat = [x["name"] + "_" + y["name"] for x in lvl["groups"] for y in x["groups"]]
+        concat = [n for n in concat if n not in used]
+        if concat and draw(st.integers(0, 2)) == 0:
+            gname = draw(st.sampled_from(concat))
+            used.add(gname)
+        else:
+            gname = _names(draw, used, related=list(path[-2:]) + [x["name"] for x in lvl["groups"]][:2])
+        g = {"name": gname, "id": draw(st.sampled_from([1, 2, 10, 65535]))}
+        g.update(gen_level(draw, opts, ctx, depth + 1, False, tuple(path) + (g["name"],)))
         fit = [dn for dn in ctx["dims"] if header_member_max(types_by_name[dn.lower()], "blockLength", types_by_name) >= max_block_length(g)]
         if not fit:
             # cannot happen with the size bounds of this generator (first dimension holds 65535)
             g["fields"], g["min_block_length"], g["block_length"] = [], 0, None
             fit = ctx["dims"]
-        g["dimension_type"] = draw(st.sampled_from(fit))
+        g["dimension_type"] = _refcase(draw, draw(st.sampled_from(fit)))
         _common_attrs(draw, g, opts)
         lvl["groups"].append(g)
     ndata = draw(st.sampled_from([0, 0, 1, 1, 2])) if ctx["datas"] else 0
     for _ in range(ndata):
-        d = {"name": _names(draw, used), "id": draw(st.sampled_from([1, 5, 20])), "type": draw(st.sampled_from(ctx["datas"]))}
+        d = {"name": _names(draw, used, related=list(path[-1:])), "id": draw(st.sampled_from([1, 5, 20])), "type": _refcase(draw, draw(st.sampled_from(ctx["datas"])))}
         _common_attrs(draw, d, opts, allow_semantic=False)
         lvl["data"].append(d)
     return lvl
@@ -484,43 +534,58 @@ def _collect_levels(level, acc):
 
 
 @st.composite
-def schemas(draw, special_text=False, odd_literals=False, max_messages=3):
+def schemas(draw, special_text=False, odd_literals=False, max_messages=3, allow_include=True, allow_options=True):
     opts = {"special_text": special_text, "odd_literals": odd_literals}
     sch = {"package": draw(st.sampled_from(["pk", "Pkg_1", "s", "schema_name", "my_schema2"])),
+           "schema_name": None,
            "id": draw(st.sampled_from([0, 1, 7, 255, 256, 65535, 65535, 65536, 100001, 4294967295])),
            "version": draw(st.sampled_from([0, 1, 5, 255, 65535])),
            "semantic_version": draw(st.sampled_from([None, "5.2", "1.0.0-rc1"])),
            "description": _text(draw, special_text) if draw(st.integers(0, 3)) == 0 else None,
            "byte_order": draw(st.sampled_from(["littleEndian", "bigEndian", None]))}
+    if allow_options and draw(st.integers(0, 3)) == 0:
+        # `--schema-name NAME`: the namespace / directory name comes from the command line, the package attribute is then free
+        # text (SBE puts no C++ constraints on it and allows it to be absent; doc/sbeppc.md)
+        sch["schema_name"] = draw(st.sampled_from(["ns1", "Custom_Name", "pk", "x", "types", "messages", "schema", "sbepp_x", "detail"]))
+        sch["package"] = draw(st.sampled_from([None, "", "com.example.sbe", "my-pkg 1", "class", "std", "1abc", "pk", "a::b", "Pkg_1"]))
+    if allow_options and draw(st.integers(0, 7)) == 0:
+        # `--inject-include PATH` puts `#include "PATH"` at the top of schema/schema.hpp; a standard header keeps every
+        # compile command of the harness independent of include paths
+        sch["inject_include"] = draw(st.sampled_from(["climits", "cstddef"]))
     types = {}      # lower-case name -> encoding (insertion order = declaration order)
     used = set()    # lower-cased public type names
     # 1. simple public types
     for _ in range(draw(st.integers(0, 4))):
-        n = _names(draw, used, lower=True)
+        n = _names(draw, used, lower=True, related=[t_["name"] for t_ in list(types.values())[-3:]])
         types[n.lower()] = gen_type(draw, n, opts)
     # 2. enums / sets
     for _ in range(draw(st.integers(0, 3))):
-        n = _names(draw, used, lower=True)
+        n = _names(draw, used, lower=True, related=[t_["name"] for t_ in list(types.values())[-3:]])
         if draw(st.booleans()):
             types[n.lower()] = gen_enum(draw, n, opts, types)
         else:
             types[n.lower()] = gen_set(draw, n, opts, types)
+    # 2b. public constants given by valueRef
+    if _enum_values(types):
+        for _ in range(draw(st.sampled_from([0, 1, 1, 2]))):
+            n = _names(draw, used, lower=True, related=[t_["name"] for t_ in list(types.values())[-3:]])
+            types[n.lower()] = gen_type(draw, n, opts, force="const", types_by_name=types)
     # 3. composites
     for _ in range(draw(st.integers(0, 3))):
-        n = _names(draw, used, lower=True)
+        n = _names(draw, used, lower=True, related=[t_["name"] for t_ in list(types.values())[-3:]])
         types[n.lower()] = gen_composite(draw, n, opts, types)
     # 4. group dimension and data encodings (names from the pool as well, with the standard names preferred)
     dims, datas = [], []
     for i in range(draw(st.sampled_from([0, 1, 1, 1, 2, 2]))):
         cands = ["groupSizeEncoding"] if "groupsizeencoding" not in used and i == 0 and draw(st.integers(0, 2)) else None
-        n = cands[0] if cands else _names(draw, used, lower=True)
+        n = cands[0] if cands else _names(draw, used, lower=True, related=[t_["name"] for t_ in list(types.values())[-3:]])
         used.add(n.lower())
         req = {"blockLength": (65535 if i == 0 else draw(st.sampled_from([255, 255, 65535])), False), "numInGroup": (draw(st.sampled_from([6, 255])), False)}
         types[n.lower()] = gen_level_header(draw, n, opts, types, req, ["numGroups", "numVarDataFields", "pad"])
         dims.append(n)
     for i in range(draw(st.sampled_from([0, 1, 1, 1, 2]))):
         cands = ["varDataEncoding"] if "vardataencoding" not in used and i == 0 and draw(st.integers(0, 2)) else None
-        n = cands[0] if cands else _names(draw, used, lower=True)
+        n = cands[0] if cands else _names(draw, used, lower=True, related=[t_["name"] for t_ in list(types.values())[-3:]])
         used.add(n.lower())
         lp = draw(st.sampled_from(UNSIGNED))
         c = {"kind": "composite", "name": n, "offset": None, "description": None, "since": None, "deprecated": None, "semantic_type": None,
@@ -538,11 +603,11 @@ def schemas(draw, special_text=False, odd_literals=False, max_messages=3):
     mused = set()
     ids = set()
     for _ in range(draw(st.sampled_from([0] + list(range(1, max_messages + 1)) * 3))):
-        m = {"name": _names(draw, mused)}
+        m = {"name": _names(draw, mused, related=[t_["name"] for t_ in list(types.values())[:3]] + [m_["name"] for m_ in msgs][:1])}
         idc = [i for i in [0, 1, 2, 3, 127, 255, 256, 65535, 65536, 100001, 4294967295] if i not in ids]
         m["id"] = draw(st.sampled_from(idc))
         ids.add(m["id"])
-        m.update(gen_level(draw, opts, ctx, 0, True))
+        m.update(gen_level(draw, opts, ctx, 0, True, (m["name"],)))
         _common_attrs(draw, m, opts)
         msgs.append(m)
     sch["messages"] = msgs
@@ -550,7 +615,7 @@ def schemas(draw, special_text=False, odd_literals=False, max_messages=3):
     hname = "messageHeader"
     custom_header = draw(st.integers(0, 3)) == 0
     if custom_header or "messageheader" in used:
-        hname = _names(draw, used, lower=True)
+        hname = _names(draw, used, lower=True, related=[t_["name"] for t_ in list(types.values())[-3:]])
     used.add(hname.lower())
     max_bl = max([max_block_length(m) for m in msgs] + [0])
     max_id = max([m["id"] for m in msgs] + [0])
@@ -559,9 +624,24 @@ def schemas(draw, special_text=False, odd_literals=False, max_messages=3):
     sch["header_type"] = hname if (custom_header or hname != "messageHeader") else None
     if sch["header_type"] is None and draw(st.integers(0, 4)) == 0:
         sch["header_type"] = "messageHeader"
+    if sch["header_type"] is not None:
+        sch["header_type"] = _refcase(draw, sch["header_type"])
     # declaration order of public types: shuffled (sbeppc resolves by name)
     order = draw(st.permutations(list(types)))
     sch["types"] = [types[k] for k in order]
+    # physical layout of the file: several <types> blocks, one of them after the messages, types in an included
+    # fragment, message elements with or without the namespace prefix
+    if draw(st.integers(0, 2)) == 0:
+        n = len(sch["types"])
+        lay = {"included": 0, "blocks": [], "tail_block": False, "plain_message": draw(st.booleans()), "file": "inc_layout.xml"}
+        if allow_include and n >= 2 and draw(st.integers(0, 2)) == 0:
+            lay["included"] = draw(st.integers(1, min(3, n - 1)))
+        rest = n - lay["included"]
+        if rest >= 2 and draw(st.booleans()):
+            a = draw(st.integers(1, rest - 1))
+            lay["blocks"] = [a]
+            lay["tail_block"] = draw(st.integers(0, 2)) == 0
+        sch["layout"] = lay
     return sch
 
 
@@ -639,22 +719,91 @@ def level_xml(lvl, ind):
     return s
 
 
+def ns(sch):
+    """the schema's C++ namespace / directory name: `--schema-name` if given, else the package"""
+    return sch.get("schema_name") or sch["package"]
+
+
+ARGS_MARKER = "<!-- sbeppc-args:"
+
+
+def sbeppc_args(sch):
+    a = ["--schema-name", sch["schema_name"]] if sch.get("schema_name") else []
+    if sch.get("inject_include"):
+        a += ["--inject-include", sch["inject_include"]]
+    return a
+
+
+def args_from_xml(xml_text):
+    """command line options a schema file asks for (first lines: `<!-- sbeppc-args: a b c -->`); the schema travels with
+    its options so that every call site and every replay file runs sbeppc the same way"""
+    i = xml_text.find(ARGS_MARKER, 0, 400)
+    if i < 0:
+        return []
+    j = xml_text.find("-->", i)
+    return xml_text[i + len(ARGS_MARKER):j].split()
+
+
 def to_xml(sch):
-    s = '<?xml version="1.0" encoding="UTF-8"?>\n<sbe:messageSchema xmlns:sbe="http://fixprotocol.io/2016/sbe"'
+    s = '<?xml version="1.0" encoding="UTF-8"?>\n'
+    if sbeppc_args(sch):
+        s += "%s %s -->\n" % (ARGS_MARKER, " ".join(sbeppc_args(sch)))
+    s += '<sbe:messageSchema xmlns:sbe="http://fixprotocol.io/2016/sbe"'
     s += _a("package", sch["package"]) + _a("id", sch["id"]) + _a("version", sch["version"]) + _a("semanticVersion", sch["semantic_version"])
     s += _a("description", sch["description"]) + _a("byteOrder", sch["byte_order"]) + _a("headerType", sch["header_type"]) + ">\n"
-    s += "  <types>\n"
-    for t in sch["types"]:
-        s += enc_xml(t, 2)
-    s += "  </types>\n"
+    lay = sch.get("layout") or {}
+    types = list(sch["types"])
+    k = min(lay.get("included", 0), len(types))
+    local = types[:len(types) - k]
+    # consecutive <types> blocks (SBE allows several; sbeppc merges them), the last one optionally after the messages
+    blocks, pos = [], 0
+    for n in lay.get("blocks") or []:
+        blocks.append(local[pos:pos + n])
+        pos += n
+    blocks.append(local[pos:])
+    tail = blocks.pop() if (lay.get("tail_block") and len(blocks) > 1) else None
+    for b in blocks:
+        s += "  <types>\n" + "".join(enc_xml(t, 2) for t in b) + "  </types>\n"
+    if k:
+        s += '  <xi:include xmlns:xi="http://www.w3.org/2001/XInclude" href=%s/>\n' % quoteattr(lay.get("file") or "inc_layout.xml")
     inc = sch.get("_include")
     if inc:
         # types externalised into an included file (file written next to the schema; href is resolved against the cwd)
         s += '  <xi:include xmlns:xi="http://www.w3.org/2001/XInclude" href=%s/>\n' % quoteattr(inc["file"])
+    mtag = "message" if lay.get("plain_message") else "sbe:message"
     for m in sch["messages"]:
-        s += "  <sbe:message" + _a("name", m["name"]) + _a("id", m["id"]) + _a("blockLength", m["block_length"]) + _common_xml(m) + ">\n"
-        s += level_xml(m, 2) + "  </sbe:message>\n"
+        s += "  <" + mtag + _a("name", m["name"]) + _a("id", m["id"]) + _a("blockLength", m["block_length"]) + _common_xml(m) + ">\n"
+        s += level_xml(m, 2) + "  </" + mtag + ">\n"
+    if tail is not None:
+        s += "  <types>\n" + "".join(enc_xml(t, 2) for t in tail) + "  </types>\n"
     return s + "</sbe:messageSchema>\n"
+
+
+def include_files(sch):
+    """{file name: content} of every fragment the schema includes (layout includes and the C08 `_include` form)"""
+    out = {}
+    lay = sch.get("layout") or {}
+    k = min(lay.get("included", 0), len(sch["types"]))
+    if k:
+        out[lay.get("file") or "inc_layout.xml"] = "<types>\n" + "".join(enc_xml(t, 1) for t in sch["types"][len(sch["types"]) - k:]) + "</types>\n"
+    if sch.get("_include"):
+        out[sch["_include"]["file"]] = include_file_xml(sch)
+    return out
+
+
+def write_schema(sch, d, name="schema.xml"):
+    """write the schema and the fragments it includes into directory d (hrefs made absolute so that the working
+    directory of sbeppc does not matter); returns the schema path.  Mutates sch['layout']['file']."""
+    lay = sch.get("layout") or {}
+    if lay.get("included"):
+        lay["file"] = os.path.join(d, os.path.basename(lay.get("file") or "inc_layout.xml"))
+    for fn, content in include_files(sch).items():
+        with open(fn if os.path.isabs(fn) else os.path.join(d, fn), "w") as f:
+            f.write(content)
+    p = os.path.join(d, name)
+    with open(p, "w") as f:
+        f.write(to_xml(sch))
+    return p
 
 
 def include_file_xml(sch):
